@@ -1,15 +1,172 @@
-"""C02 - backward of every tensor op is the exact VJP (structural part)."""
-from sa import opcat, rules_template as T
+"""C02 - backward of every nn op/layer/loss is the exact VJP (structural part)."""
+import ast
+from sa import opcat, rules_template as T, rules_kernel as K
+from sa.core import norm, body_walk, dotted
+from sa.cfg import CFG, facts_at
+from sa.props.c01 import ops_of
 
-def ops_of(model, modname):
-    ops, problems = opcat.catalogue(model)
-    return [o for o in ops if o.func.mod.modname == modname], [p for p in problems if p[0].startswith(modname + '.')]
+MOD = 'synapgrad.nn.functional'
+POOLS = [('synapgrad.cpu_ops.%s_forward' % n, 'synapgrad.cpu_ops.%s_backward' % n) for n in ('max_pool1d', 'avg_pool1d', 'max_pool2d', 'avg_pool2d')]
+
 
 def check(model, R, tier):
-    ops, problems = ops_of(model, 'synapgrad.nn.functional')
+    ops, problems = ops_of(model, MOD)
     for q, why in problems:
         R.incomplete_at('C02.WRAP', q, why)
+    R.rule('C02.CATALOGUE', 'every nn op wrapper of synapgrad/nn/functional.py is an instance of the op template', floor=22)
+    for o in ops:
+        R.ob('C02.CATALOGUE', o.qual, 'template instance', True, '', o.func.loc)
     R.analysed['ops'] = [o.name for o in ops]
     T.check_ops(model, R, ops, 'C02')
     T.check_cover(model, R, ops, 'C02')
-    return dict(explanation='x', assumptions=[], technique='x')
+    K.check_glin(model, R, ops, 'C02')
+    kernels = [model.func(d) for d in sorted({d for o in ops for d, _, _ in o.bwd_calls})]
+    R.analysed['backward_kernels'] = [k.qualname for k in kernels]
+    K.check_dep(model, R, 'C02', kernels)
+    K.check_scatter(model, R, kernels + [model.func('synapgrad.conv_tools.place_windows')], 'C02', floor=1)
+    K.check_literal_perm_pairs(model, R, 'C02', POOLS)
+    K.check_axisgen(model, R, 'C02', ['synapgrad.cpu_ops.softmax_forward', 'synapgrad.cpu_ops.softmax_backward',
+                                       'synapgrad.cpu_ops.log_softmax_forward', 'synapgrad.cpu_ops.log_softmax_backward'])
+    check_bn_mode(model, R)
+    check_poolpair(model, R)
+    check_layers(model, R, ops)
+    return dict(
+        explanation='Static check of the 22 nn op wrappers, their backward kernels (cpu_ops / conv_tools) and the layer/loss modules that reach them: '
+                    'template wiring and binding, operand coverage, linearity in the upstream gradient, must-dependence of every gradient slot on its saved values, '
+                    'axis-genericity of softmax kernels, forward/backward agreement of the batch-norm mode predicate, pooling geometry/permutation pairing. '
+                    'It does NOT decide the numerical correctness of any closed form.',
+        assumptions=['NumPy API roles as frozen in sa/domains', 'dependence table in sa/rules_kernel.py (confirmed by reading)'],
+        technique='ast op-template extraction + abstract interpretation (linearity, must-dependence) + boolean truth-table comparison')
+
+
+# ---------------------------------------------------------------------------------------- batch-norm mode predicates
+def _eval_bool(e, val):
+    """evaluate a boolean expression over atoms given by val(text)->bool"""
+    if isinstance(e, ast.BoolOp):
+        vs = [_eval_bool(v, val) for v in e.values]
+        return all(vs) if isinstance(e.op, ast.And) else any(vs)
+    if isinstance(e, ast.UnaryOp) and isinstance(e.op, ast.Not):
+        return not _eval_bool(e.operand, val)
+    return val(norm(e))
+
+
+def check_bn_mode(model, R):
+    R.rule('C02.MODE', 'batch_norm_forward and batch_norm_backward select batch statistics under equivalent predicates (truth table over training x running-stats-present)', floor=2)
+    fwd = model.func('synapgrad.cpu_ops.batch_norm_forward')
+    bwd = model.func('synapgrad.cpu_ops.batch_norm_backward')
+    # forward: <stat> = running_<stat> if <test> else x.<stat>(...)
+    ftests = []
+    for n in body_walk(fwd.node):
+        if isinstance(n, ast.Assign) and isinstance(n.value, ast.IfExp) and isinstance(n.value.body, ast.Name) and n.value.body.id.startswith('running_'):
+            ftests.append((n.targets[0].id if isinstance(n.targets[0], ast.Name) else '?', n.value.body.id, n.value.test, n))
+    # backward: if <test>: <batch-statistics formula> else: <running formula>
+    btest = None
+    for n in body_walk(bwd.node):
+        if isinstance(n, ast.If) and n.orelse:
+            has_sum_body = any(isinstance(c, ast.Call) and isinstance(c.func, ast.Attribute) and c.func.attr == 'sum' for s in n.body for c in ast.walk(s))
+            has_sum_else = any(isinstance(c, ast.Call) and isinstance(c.func, ast.Attribute) and c.func.attr == 'sum' for s in n.orelse for c in ast.walk(s))
+            if has_sum_body != has_sum_else:
+                btest = (n.test, has_sum_body)      # polarity: test true -> batch branch iff has_sum_body
+    if len(ftests) != 2 or btest is None:
+        R.incomplete_at('C02.MODE', bwd.qualname, 'could not extract the statistics-selection predicates (forward %d, backward %s)' % (len(ftests), btest is not None))
+        return
+    for stat, runname, test, node in ftests:
+        bad = []
+        for training in (False, True):
+            for present in (False, True):
+                def fval(t, training=training, present=present):
+                    if t == 'training': return training
+                    if t.endswith('is not None'): return present
+                    if t.endswith('is None'): return not present
+                    raise KeyError(t)
+                def bval(t, training=training, present=present):
+                    if t == 'training': return training
+                    if t == 'track_running_stats': return present
+                    raise KeyError(t)
+                try:
+                    f_running = _eval_bool(test, fval)
+                    b = _eval_bool(btest[0], bval)
+                    b_batch = b if btest[1] else not b
+                except KeyError as e:
+                    R.incomplete_at('C02.MODE', bwd.qualname, 'unknown atom %s in a mode predicate' % e)
+                    return
+                if f_running == b_batch:
+                    bad.append((training, present))
+        R.ob('C02.MODE', bwd.qualname, '%s: forward uses running iff [%s]; backward batch-branch iff [%s]' % (stat, norm(test), norm(btest[0])),
+             not bad, 'forward and backward disagree on which statistics are used for (training, running stats present) in %s' % bad, '%s:%d' % (bwd.mod.relpath, bwd.node.lineno))
+
+
+# ---------------------------------------------------------------------------------------- pooling geometry pairing
+def check_poolpair(model, R):
+    R.rule('C02.POOLPAIR', 'each pool backward hands place_windows the geometry the forward handed extract_windows (same parameter per role) and the matching pad value / reducer pair', floor=4)
+    for fq, bq in POOLS:
+        fk, bk = model.func(fq), model.func(bq)
+        ew = [n for n in body_walk(fk.node) if isinstance(n, ast.Call) and dotted(n.func) == 'extract_windows']
+        pw = [n for n in body_walk(bk.node) if isinstance(n, ast.Call) and dotted(n.func) == 'place_windows']
+        if len(ew) != 1 or len(pw) != 1:
+            R.incomplete_at('C02.POOLPAIR', bq, 'expected one extract_windows / place_windows call')
+            continue
+        ef = model.func('synapgrad.conv_tools.extract_windows')
+        pf = model.func('synapgrad.conv_tools.place_windows')
+        eb, _ = T.bind_call(ew[0], ef)
+        pb, _ = T.bind_call(pw[0], pf)
+        roles = {r: (norm(eb[r]) if r in eb else None, norm(pb[r]) if r in pb else None) for r in ('kernel_size', 'step', 'padding', 'dilation')}
+        ok = all(a == b and a is not None for a, b in roles.values())
+        R.ob('C02.POOLPAIR', bq, 'geometry roles %s' % roles, ok, 'extract_windows and place_windows must receive the same kernel parameter for each geometry role', bk.loc)
+        osh = pb.get('out_shape')
+        R.ob('C02.POOLPAIR', bq, 'out_shape=%s' % (norm(osh) if osh is not None else None), osh is not None and norm(osh) == 'a_shape',
+             'windows must be placed back into an array of the operand shape', bk.loc)
+        # reducer pairing: max <-> max_backward, mean <-> mean_backward
+        fred = [n.func.attr for n in body_walk(fk.node) if isinstance(n, ast.Call) and isinstance(n.func, ast.Attribute) and n.func.attr in ('max', 'mean', 'min', 'sum')]
+        bred = [dotted(n.func) for n in body_walk(bk.node) if isinstance(n, ast.Call) and dotted(n.func) in ('max_backward', 'mean_backward', 'min_backward', 'sum_backward')]
+        R.ob('C02.POOLPAIR', bq, 'reducer %s / %s' % (fred, bred), len(fred) == 1 and bred == [fred[0] + '_backward'],
+             'the window reduction of the forward and the reducer backward must be siblings', bk.loc)
+
+
+# ---------------------------------------------------------------------------------------- layers / losses reach the ops with their own parameters
+def check_layers(model, R, ops):
+    opnames = {o.qual for o in ops} | {o.qual for o in opcat.catalogue(model)[0]}
+    classes = [c for c in model.subclasses('synapgrad.nn.modules.Module') if c.mod.modname in ('synapgrad.nn.layers', 'synapgrad.nn.activations', 'synapgrad.nn.losses')]
+    R.rule('C02.LAYER', 'every layer / activation / loss module forward reaches a catalogue op and hands it its own registered parameters', floor=20)
+    tensor_cls = model.cls('synapgrad.tensor.Tensor')
+    for c in classes:
+        fw = c.methods.get('forward')
+        if fw is None:
+            continue
+        hits = []
+        for n in body_walk(fw.node):
+            if isinstance(n, ast.Call):
+                d = model.resolve(fw.mod, n.func)
+                if d in opnames:
+                    hits.append((d, n))
+                elif isinstance(n.func, ast.Attribute) and n.func.attr in tensor_cls.methods and not isinstance(n.func.value, ast.Name) is False:
+                    # tensor method forwarding to an op (x.flatten(...))
+                    m = tensor_cls.methods[n.func.attr]
+                    for cc in body_walk(m.node):
+                        if isinstance(cc, ast.Call):
+                            dd = model.resolve(m.mod, cc.func)
+                            if dd in opnames and isinstance(n.func.value, ast.Name) and n.func.value.id in fw.params:
+                                hits.append((dd, n))
+            if isinstance(n, ast.BinOp) and isinstance(n.op, (ast.Mult, ast.Add, ast.Sub, ast.MatMult)):
+                hits.append(('operator', n))
+        R.ob('C02.LAYER', c.qualname, 'forward reaches %s' % sorted({h[0].split('.')[-1] for h in hits}), bool(hits),
+             'forward must be built from catalogue ops so that its backward is the ops\' backward', fw.loc)
+        # parameters assigned in __init__ as Parameter(...) must be passed to the op
+        init = model.find_method(c, '__init__')
+        pnames = set()
+        for k in model.mro(c):
+            ini = k.methods.get('__init__')
+            if ini is None:
+                continue
+            for n in body_walk(ini.node):
+                if isinstance(n, ast.Assign) and isinstance(n.targets[0], ast.Attribute) and isinstance(n.targets[0].value, ast.Name) and n.targets[0].value.id == 'self' \
+                        and isinstance(n.value, ast.Call) and (model.resolve(ini.mod, n.value.func) or '').endswith('.Parameter'):
+                    pnames.add(n.targets[0].attr)
+        if pnames and hits:
+            used = set()
+            for d, call in hits:
+                for a in ast.walk(call):
+                    if isinstance(a, ast.Attribute) and isinstance(a.value, ast.Name) and a.value.id == 'self' and a.attr in pnames:
+                        used.add(a.attr)
+            R.ob('C02.LAYER', c.qualname, 'parameters %s passed to the op' % sorted(pnames), used == pnames,
+                 'registered parameters %s are not handed to the functional op (they would never receive a gradient)' % sorted(pnames - used), fw.loc)
